@@ -56,3 +56,46 @@ Fixpoint build (e : expr) (gs : gstate) : gstate :=
 Definition gsource (srcA srcT slice : nat) : gstate :=
   GState [Node srcA 0 0 false 1 (KApply []); Node srcT 0 1 false 1 (KApply []); Node slice 0 2 false 2 (KApply [(1, 0)])]
          (0, 0) (2, 0) (2, 1) 3.
+
+(* the group ids of the stateful apply-path actors, in pipeline order *)
+Definition pers_op (o : opspec) (gs : gstate) : list nat :=
+  let g1 := match olabel o with Some _ => S (gfresh gs) | None => gfresh gs end in
+  match oapply o with Some a => if astateful a then [g1] else [] | None => [] end.
+
+Fixpoint pers_gids (e : expr) (gs : gstate) : list nat :=
+  match e with
+  | EOp o => pers_op o gs
+  | ESeq l r => pers_gids l gs ++ pers_gids r (build l gs)
+  end.
+
+(* ---- the apply segment alone (what an apply-mode launch compiles): the apply-path worker of every operator, in the
+        worker group it shares with the training graph (group ids are handed out as in build_op) ------------------- *)
+Record astate := AState { anodes : list node; apa : nat * nat; afresh : nat }.
+
+Definition build_a_op (o : opspec) (s : astate) : astate :=
+  let g1 := match olabel o with Some _ => S (afresh s) | None => afresh s end in
+  match oapply o with
+  | Some a => AState (anodes s ++ [mknode a g1 (KApply [apa s])]) (List.length (anodes s), 0) (S (S g1))
+  | None => AState (anodes s) (apa s) (S g1)
+  end.
+
+Fixpoint build_a (e : expr) (s : astate) : astate :=
+  match e with EOp o => build_a_op o s | ESeq l r => build_a r (build_a l s) end.
+
+Definition asource (srcA : nat) : astate := AState [Node srcA 0 0 false 1 (KApply [])] (0, 0) 3.
+
+(* ---- correspondence at the graph level: on the cases of Model/C03.v the executable graph models themselves are run
+        against what the real composition produced - the training graph at its train and apply tails and for the states it
+        trains, and the apply segment loaded with the OBSERVED states at its tail -------------------------------------- *)
+Definition check_case_graph (c : C03.case) : bool :=
+  C03.check_case c &&
+  match c with
+  | CExpr a t sl e tr ap sts =>
+      let gs := build e (gsource a t sl) in
+      let ev := geval None (gnodes gs) in
+      let gids := pers_gids e (gsource a t sl) in
+      let ga := build_a e (asource a) in
+      term_eqb (value ev (pt gs)) tr && term_eqb (value ev (pa gs)) ap
+      && terms_eqb (map (fun g => match lookup_gid g (trained ev) with Some s => s | None => TNone end) gids) sts
+      && term_eqb (value (geval (Some (combine gids sts)) (anodes ga)) (apa ga)) ap
+  end.
